@@ -2,6 +2,7 @@ import Refine.Model.Comm
 import Refine.Lemmas.Comm
 import Refine.Lemmas.CommReduce
 import Refine.Lemmas.CommSelect
+import Refine.Lemmas.CommP2P
 import Mathlib.Data.Int.Order.Basic
 
 /-!
@@ -237,6 +238,21 @@ theorem bcast_spec (ty : RefType) (hmpi : ty.mpiOk = true) (n : Nat) (root : Lis
   | nil => simp [bcast]
   | cons d ds => exact bcast_full ty hmpi n _ root (by simp) (by simp) hlen
 
+/-- the rank-0 scatter loop (`ref_mpi_scatter_send` to every worker, `ref_mpi_scatter_recv` on the workers):
+    the tags match and worker `p` receives exactly `chunks[p]`; rank 0 keeps `chunks[0]` -/
+theorem scatter_spec [Inhabited α] (ty : RefType) (hty : ty.mpiOk = true) (maxTag : Int) (chunks : List (List α))
+    (hmax : (chunks.length : Int) ≤ maxTag + 1) :
+    scatter ty maxTag chunks = some (chunks.map fun c => (Status.ok, c)) :=
+  scatter_eq ty hty maxTag chunks hmax
+
+/-- the rank-0 gather loop (`ref_mpi_gather_send` on the workers, `ref_mpi_gather_recv` from every worker):
+    rank 0 ends up with the concatenation in rank order -/
+theorem gather_spec [Inhabited α] (ty : RefType) (hty : ty.mpiOk = true) (maxTag : Int) (c0 : List α)
+    (cs : List (List α)) (hmax : ((c0 :: cs).length : Int) ≤ maxTag + 1) :
+    gather ty maxTag (c0 :: cs)
+      = some ((Status.ok, (c0 :: cs).flatten) :: cs.map fun _ => (Status.ok, [])) :=
+  gather_eq ty hty maxTag c0 cs hmax
+
 /-! ## reductions (exact for integers; floating-point sums are MPI's order and are not claimed) -/
 
 /-- `ref_mpi_allsum` on integers: every rank gets the element-wise sum over the ranks -/
@@ -354,6 +370,11 @@ example : allsum (· + ·) .long 2 [[1, 2], [0, 0], [-5, 7]]
 
 /-- MINLOC keeps the lowest rank on a tie (ranks 1 and 2 both hold the minimum of component 0) -/
 example : allminwho (ltB (γ := Int)) 1 [[3], [1], [1]] = [([1], [1]), ([1], [1]), ([1], [1])] := by decide
+
+/-- scatter / gather on 3 ranks with an empty chunk -/
+example : scatter .int 100 [[1], [], [2, 3]] = some [(Status.ok, [1]), (Status.ok, []), (Status.ok, [2, 3])]
+    ∧ gather .int 100 [[1], [], [2, 3]] = some [(Status.ok, [1, 2, 3]), (Status.ok, []), (Status.ok, [])] := by
+  decide
 
 /-- `IsKth` is inhabited: 2 is the element at position 1 of {3, 1} ∪ {} ∪ {2} -/
 example : IsKth ([[3, 1], [], [2]] : World (List ℝ)).flatten 1 2 := by
